@@ -25,7 +25,7 @@ CHECKS.update({
   text="The real controller loop (impl.run, notify, act, scheduler.api/assign/graph) and the real worker-side task execution (RunnerContext.project, runner.run, Memory, serde) run against SimCluster. DAG shape (<=3 tasks quick, <=4 thorough; positional/keyword/multi edges, 1-2 outputs), requested outputs, cluster shape and the first K scheduling decisions (which task body / transfer / fetch runs next, which channel delivers next, how events are batched) are decision variables; the decision tree is explored until CrossHair reports it exhausted. On every path: the outputs delivered are exactly the requested ones and each equals the term a 15-line sequential evaluator computes.", note=CTRL_NOTE),
  "C02": dict(category="other", design_ref="DESIGN.md §4 C02",
   technique="solver-driven exhaustive path exploration (CrossHair/z3) of the real controller against a simulated cluster with a dispatch monitor",
-  text="Same exploration as C01 with GPU flags; a monitor inside the simulated executor checks at every dispatch: worker exists, has no unfinished sequence, satisfies the GPU requirement, task never dispatched before, every consumed dataset exists somewhere and is on the target host or a transfer to it is outstanding; at the end every task was dispatched exactly once.", note=CTRL_NOTE + " The worker-side wake-up logic of entrypoint is covered by a separate harness when built."),
+  text="Same exploration as C01 with GPU flags; a monitor inside the simulated executor checks at every dispatch: worker exists, has no unfinished sequence, satisfies the GPU requirement, task never dispatched before, every consumed dataset exists somewhere and is on the target host or a transfer to it is outstanding; at the end every task was dispatched exactly once.", note=CTRL_NOTE + " worker-wakeup: the receive loop of runner.entrypoint.entrypoint is lifted from the AST of the current source into a step function (harness error if the loop no longer has the expected shape) and driven with every arrival order of <=5 (thorough 7) messages from {command, publication of each of its two inputs, unrelated publication, unrelated purge, own output}: the sequence starts at most once, only after both inputs have arrived, and always once command and inputs have all arrived (no lost wake-up when the command overtakes a publication)."),
  "C03": dict(category="other", design_ref="DESIGN.md §4 C03",
   technique="solver-driven exhaustive path exploration (CrossHair/z3) of the real controller: bounded liveness monitors",
   text="Same exploration. The simulated bridge raises if the controller waits while nothing is outstanding or pending work can never become enabled; a counter around plan bounds the scheduling rounds; any exception escaping run is a bookkeeping crash. On return all tasks ran, all requested outputs have values and shutdown was called once. Includes the empty job, isolated tasks and more components than hosts.", note=CTRL_NOTE + " Fairness = every pending action eventually executes (default tail)."),
